@@ -1,7 +1,6 @@
 (* Model of skyllh/core/test_statistic.py (both __call__ methods),
    Analysis.calculate_test_statistic (forwarding), and of the p-value helpers
-   calculate_pval_from_trials, calculate_pval_from_trials_mixed, polynomial_fit
-   and the final inversion step of estimate_mean_nsignal_for_ts_quantile
+   calculate_pval_from_trials, calculate_pval_from_trials_mixed and polynomial_fit
    (skyllh/core/utils/analysis.py).
 
    Real-valued formulas are polymorphic in Num (theorems at RNum, execution on
@@ -133,7 +132,12 @@ Section Real.
         end
     end.
 
-  (* ---------------------------------------------------------------- calculate_pval_from_trials (real part) *)
+  (* LLHRatioAnalysis.unblind / do_trial_with_given_pseudo_data (the public
+     path): calculate_test_statistic(log_lambda=..., fitparam_values=...) and
+     nothing else *)
+  Definition analysis_public_ts (v : ts_variant) (floating : list Z) (ns_name : Z)
+             (log_lambda : T) (fpv : list T) : res T :=
+    analysis_calculate_ts v floating ns_name log_lambda fpv None None.
 End Real.
 Arguments callee T : clear implicits.
 
@@ -207,21 +211,4 @@ Section Real2.
       Ok (poly_inv2 N a b c p_thr)
     else Err ValueError.
 
-  (* ---------------------------------------------------------------- estimate_mean_nsignal_for_ts_quantile, last step *)
-  (* two points (ns0,p0), (ns1,p1): linear interpolation *)
-  Definition est_linear (ns0 ns1 p0 p1 p : T) : T :=
-    if est_same_p N p0 p1 then est_mu_mid N ns0 ns1
-    else
-      let dns_dp := est_dns_dp N ns1 ns0 p1 p0 in
-      let delta_p := est_delta_p N p0 p in
-      if est_p0_above N p0 p then est_mu_down N ns0 dns_dp delta_p
-      else est_mu_up N ns0 dns_dp delta_p.
-
-  (* n_pts = len(n_sig) collected points, scanned_range = max - min of them *)
-  Definition est_final (polyfit : Z -> res (list T)) (n_pts : Z) (scanned_range : T)
-             (ns0 ns1 p0 p1 p : T) : res T :=
-    if est_use_poly n_pts then
-      let deg := if est_deg_is1 N scanned_range n_pts then est_deg_lo else est_deg_hi in
-      polynomial_fit polyfit deg p
-    else Ok (est_linear ns0 ns1 p0 p1 p).
 End Real2.
